@@ -10,14 +10,19 @@ def run(ctx):
                        "gets exactly its own payloads in order and completes, no deadlock. The K1 witness schedule runs first. Non-trivial = some payload "
                        "delivered and at least two readers took steps; distinct by (mode, schedule prefix, ids).")
     conc.run_c06(ctx)
+    conc.conc_sessions(ctx)
 
 
 def search(ctx, disagreements, proofs):
     before = len(ctx.report.prop_failures)
     conc.run_c06(ctx)
+    conc.conc_sessions(ctx)
     fails = [f for f in ctx.report.prop_failures[before:] if f["signature"]["kind"] != "lost-clse-no-entry"]
     return fails[0] if fails else None
 
 
 def replay(ctx, payload):
+    fl = payload.get("failure") or {}
+    if (fl.get("case") or {}).get("kind") == "conc-sessions":
+        return conc.replay_conc_sessions(ctx, fl)
     return conc.replay_c06(ctx, payload)
